@@ -14,6 +14,7 @@ Ltac bsplit H :=
          end.
 
 Ltac if_inv H :=
+  cbv zeta in H;
   match type of H with
   | (if ?c then _ else _) = _ => let E := fresh "E" in destruct c eqn:E; try discriminate H
   end.
@@ -30,6 +31,12 @@ Ltac osplit H :=
   repeat match type of H with
          | (_ || _) = false => let H1 := fresh H in apply orb_false_iff in H; destruct H as [H H1]
          end.
+
+(* projections reduce by [cbn] with an explicit list only: [simpl] would unfold N / Z comparisons *)
+Ltac task_cbn := cbn [t_task_id t_kind t_status t_phase t_channel_id t_channel_type t_source_node t_target_node t_desired_leader t_base_channel_epoch t_base_leader_epoch t_fence_token t_fence_version t_fence_until_ms t_embedded_leader_transfer t_embedded_desired_leader t_owner_node_id t_owner_lease_until_ms t_proof t_attempt t_next_run_at_ms t_blocker_code t_blocker_message t_last_error t_created_at_ms t_updated_at_ms t_completed_at_ms t_progress].
+Ltac task_cbn_in H := cbn [t_task_id t_kind t_status t_phase t_channel_id t_channel_type t_source_node t_target_node t_desired_leader t_base_channel_epoch t_base_leader_epoch t_fence_token t_fence_version t_fence_until_ms t_embedded_leader_transfer t_embedded_desired_leader t_owner_node_id t_owner_lease_until_ms t_proof t_attempt t_next_run_at_ms t_blocker_code t_blocker_message t_last_error t_created_at_ms t_updated_at_ms t_completed_at_ms t_progress] in H.
+Ltac proof_cbn := cbn [pf_cutover_leo pf_cutover_hw pf_drained_leader_node pf_drained_runtime_generation pf_drained_channel_epoch pf_drained_leader_epoch pf_drained_fence_version].
+Ltac progress_cbn := cbn [pg_leader_leo pg_leader_hw pg_target_leo pg_target_checkpoint_hw pg_lag_records pg_stable_since_ms].
 
 (* ---- equality tests ---------------------------------------------------------------------- *)
 
@@ -78,26 +85,26 @@ Qed.
 
 Lemma proof_eqb_eq a b : proof_eqb a b = true -> a = b.
 Proof.
-  destruct a, b; unfold proof_eqb; simpl. intro H. bsplit H.
+  destruct a, b; unfold proof_eqb; proof_cbn. intro H. bsplit H.
   repeat match goal with H : (_ =? _) = true |- _ => apply N.eqb_eq in H end. subst. reflexivity.
 Qed.
 
 Lemma proof_eqb_refl a : proof_eqb a a = true.
-Proof. destruct a; unfold proof_eqb; simpl. rewrite !N.eqb_refl. reflexivity. Qed.
+Proof. destruct a; unfold proof_eqb; proof_cbn. rewrite !N.eqb_refl. reflexivity. Qed.
 
 Lemma progress_eqb_eq a b : progress_eqb a b = true -> a = b.
 Proof.
-  destruct a, b; unfold progress_eqb; simpl. intro H. bsplit H.
+  destruct a, b; unfold progress_eqb; progress_cbn. intro H. bsplit H.
   repeat match goal with H : (_ =? _) = true |- _ => apply N.eqb_eq in H end.
   repeat match goal with H : (_ =? _)%Z = true |- _ => apply Z.eqb_eq in H end. subst. reflexivity.
 Qed.
 
 Lemma progress_eqb_refl a : progress_eqb a a = true.
-Proof. destruct a; unfold progress_eqb; simpl. rewrite !N.eqb_refl, Z.eqb_refl. reflexivity. Qed.
+Proof. destruct a; unfold progress_eqb; progress_cbn. rewrite !N.eqb_refl, Z.eqb_refl. reflexivity. Qed.
 
 Lemma task_eqb_eq a b : task_eqb a b = true -> a = b.
 Proof.
-  destruct a, b; unfold task_eqb; simpl. intro H. bsplit H.
+  destruct a, b; unfold task_eqb; task_cbn. intro H. bsplit H.
   repeat match goal with H : (_ =? _) = true |- _ => apply N.eqb_eq in H end.
   repeat match goal with H : (_ =? _)%Z = true |- _ => apply Z.eqb_eq in H end.
   repeat match goal with H : bytes_eqb _ _ = true |- _ => apply bytes_eqb_eq in H end.
@@ -109,7 +116,7 @@ Qed.
 
 Lemma task_eqb_refl a : task_eqb a a = true.
 Proof.
-  destruct a; unfold task_eqb; simpl.
+  destruct a; unfold task_eqb; task_cbn.
   rewrite !N.eqb_refl, !Z.eqb_refl, !bytes_eqb_refl, proof_eqb_refl, progress_eqb_refl, Bool.eqb_reflx.
   reflexivity.
 Qed.
@@ -167,7 +174,8 @@ Proof.
   - unfold mutCommit. intro H. repeat if_inv H. inversion H; subst. repeat split.
   - unfold mutAddLearner. intro H. repeat if_inv H; inversion H; subst; repeat split.
   - unfold mutPromote. intro H. repeat if_inv H; inversion H; subst; repeat split.
-  - unfold mutClear. intro H. repeat if_inv H; inversion H; subst; repeat split.
+  - unfold mutClear. intro H. repeat if_inv H; inversion H; subst; try (repeat split; fail).
+    match goal with |- context [if ?c then _ else _] => destruct c end; repeat split.
   - unfold mutAbort. intro H. repeat if_inv H; inversion H; subst; repeat split.
 Qed.
 
@@ -296,3 +304,42 @@ Proof.
   - apply tasks_wf_del. exact W.
   - intros u Hu. apply in_task_del in Hu. tauto.
 Qed.
+
+(* ---- association lists ------------------------------------------------------------------------------ *)
+
+Section AssocLemmas.
+  Context {K V : Type} (eqb : K -> K -> bool) (eqb_eq : forall a b, eqb a b = true <-> a = b).
+
+  Lemma assoc_eqb_refl k : eqb k k = true.
+  Proof. apply eqb_eq. reflexivity. Qed.
+
+  Lemma assoc_get_put (l : list (K * V)) k v k' :
+    assoc_get eqb (assoc_put eqb l k v) k' = if eqb k k' then Some v else assoc_get eqb l k'.
+  Proof.
+    induction l as [|[k0 v0] l IH]; simpl.
+    - reflexivity.
+    - destruct (eqb k0 k) eqn:E; simpl.
+      + apply eqb_eq in E. subst k0. destruct (eqb k k'); reflexivity.
+      + rewrite IH. destruct (eqb k0 k') eqn:E2; [|reflexivity].
+        apply eqb_eq in E2. subst k'.
+        destruct (eqb k k0) eqn:E3; [|reflexivity].
+        apply eqb_eq in E3. subst k0. rewrite assoc_eqb_refl in E. discriminate.
+  Qed.
+
+  Lemma assoc_get_del (l : list (K * V)) k k' :
+    assoc_get eqb (assoc_del eqb l k) k' = if eqb k k' then None else assoc_get eqb l k'.
+  Proof.
+    induction l as [|[k0 v0] l IH]; simpl.
+    - destruct (eqb k k'); reflexivity.
+    - destruct (eqb k0 k) eqn:E; simpl.
+      + rewrite IH. apply eqb_eq in E. subst k0. destruct (eqb k k'); reflexivity.
+      + rewrite IH. destruct (eqb k0 k') eqn:E2; [|reflexivity].
+        apply eqb_eq in E2. subst k'.
+        destruct (eqb k k0) eqn:E3; [|reflexivity].
+        apply eqb_eq in E3. subst k0. rewrite assoc_eqb_refl in E. discriminate.
+  Qed.
+End AssocLemmas.
+
+Definition chan_get_put {V} := @assoc_get_put chan_key V chan_key_eqb chan_key_eqb_eq.
+Definition chan_get_del {V} := @assoc_get_del chan_key V chan_key_eqb chan_key_eqb_eq.
+Definition tkey_get_put {V} := @assoc_get_put tkey V tkey_eqb tkey_eqb_eq.
